@@ -10,6 +10,8 @@ use std::io::{BufWriter, Write};
 pub struct Ctx {
     pub rng: Rng,
     pub thorough: bool,
+    /// a random-only shard of the thorough tier (own seed; enumerations and fixed grids are left to the main run)
+    pub soak: bool,
     pub prop: String,
     ops: File,
     out: BufWriter<File>,
@@ -37,6 +39,7 @@ impl Ctx {
         Ctx {
             rng: Rng::new(seed),
             thorough,
+            soak: false,
             prop: prop.to_string(),
             ops: File::create(format!("{}/ops.txt", dir)).unwrap(),
             out: BufWriter::new(File::create(format!("{}/impl.txt", dir)).unwrap()),
